@@ -27,7 +27,7 @@ CLAIMED = {
         "generated formulas (phys_pathway_attenuation).",
    design_ref="DESIGN.md section 4 C05",
    note=TB + "Translator translator/diffusion_tables.py validated by the Interval tie; pathsum is for the 1-D array model with integer shifts; n-D / gridded states and "
-        "tensor D over many states are tied by correspondence (b-matrices 1e-12, states 1e-9) and an independent 3^n pathway oracle with numerical quadrature (testing). "
+        "tensor D over many states are tied by correspondence (b-matrices 1e-12, states 1e-9, evenness of the longitudinal factors DL about the centre state) and an independent 3^n pathway oracle with numerical quadrature (testing). "
         "Axioms: classical reals, funext, classic for the analytic theorems; none for the algebraic ones.",
    technique="Coq proof (RInt/auto_derive on translated formulas; induction over block sequences) + translator + correspondence + pathway oracle"),
  "C06": dict(
@@ -248,7 +248,8 @@ CLAIMED = {
         "from transition.py/evolution.py on every run and proved to be the Rodrigues rotation / to solve the Bloch ODE.",
    design_ref="DESIGN.md sections 3 and 4 C01",
    note=TB + "Translator (Python ast -> Gen/*.v) validated on every run by Interval evaluation against the implementation. "
-        "Modelled rather than verified: Model/State.v, Model/Ops.v (exact dyadic correspondence incl. simulate() F0/Z0). Truncated shifts are excluded from the "
+        "Modelled rather than verified: Model/State.v, Model/Ops.v (exact dyadic correspondence incl. simulate() F0/Z0); vectorised real-operator runs on two batch axes are "
+        "compared per entry with independently simulated Bloch isochromats (testing; the shape algebra is C07's theorem). Truncated shifts are excluded from the "
         "theorem (C13). Axioms: none for the algebraic theorems; the analytic ones (Coquelicot reals) use sig_not_dec, sig_forall_dec, functional_extensionality_dep, classic.",
    technique="Coq proof (induction over programs, DFT inversion, real analysis on translated coefficients) + translator + exact correspondence"),
  "C08": dict(
